@@ -3,7 +3,7 @@ C10 - MPS truncation and canonical form honour their contract.
 
 Level 1 (E1): split_matrix on EVERY singular-value multiset over a spectrum alphabet x both centre
 sides x max_error x max_rank x preserve_norm.  Level 2 (E2): every operation history up to the depth
-bound over a 16-operation alphabet on fresh real MPS objects (several initial states, qubits and
+bound over a 18-operation alphabet on fresh real MPS objects (several initial states, qubits and
 qutrits, several precision / max_bond_dim settings); bond cap, left/right orthonormality around the
 declared centre, norm == norm of the centre tensor and the truncation-error bound are evaluated on
 every live object after every transition.
@@ -36,7 +36,7 @@ SPEC = [0.0, 1e-12, 1e-6, 1e-3, 0.5, 1.0]
 
 def _cfg(tier):
     if tier == "quick":
-        return dict(ns=[2, 3], dims=[2, 3], depth=2, precs=[1e-2, 1e-8], caps=[1, 2, 64], kmax=4, inits=mps_bfs.INITIALS[:4])
+        return dict(ns=[2, 3], dims=[2, 3], depth=2, precs=[1e-2, 1e-8], caps=[1, 2, 64], kmax=4, inits=mps_bfs.INITIALS[:4] + ["thr_lo", "thr_hi"])
     return dict(ns=[2, 3, 4, 6], dims=[2, 3], depth=3, precs=[1e-2, 1e-5, 1e-8], caps=[1, 2, 4, 64], kmax=5, inits=mps_bfs.INITIALS)
 
 
